@@ -14,6 +14,7 @@ import (
 	"github.com/anishathalye/porcupine"
 	"github.com/xuperchain/xupercore/bcs/ledger/xledger/state/utxo"
 	pb "github.com/xuperchain/xupercore/bcs/ledger/xledger/xldgpb"
+	"github.com/xuperchain/xupercore/protos"
 
 	"verif/gen"
 	"verif/hist"
@@ -30,6 +31,7 @@ type request struct {
 	Addr    string
 	Amount  int64
 	Block   int
+	Block2  int // walk-walk: second block, walked to right after the first
 	// result
 	Call, Ret int64
 	Admitted  bool
@@ -118,6 +120,52 @@ func oneRound(rng *rand.Rand, pattern string, idx int) (rep roundReport) {
 		}
 		playBlock = len(t.Blocks) - 1
 	}
+	// walk-walk: two blocks arrive in quick succession; the second confirms transactions (some of
+	// them read-only) that sit in the node's pool while the first walk's re-admission still runs
+	var preload []*pb.Transaction
+	playBlock2 := -1
+	if pattern == "walk-walk" {
+		a, err := t.Author(base)
+		if err != nil {
+			problem("harness|setup", "%v", err)
+			return
+		}
+		for i := 0; i < 4+rng.Intn(4); i++ {
+			var p *sn.ProgBuilder
+			key := []byte(gen.KeyNames[rng.Intn(len(gen.KeyNames))])
+			if i%2 == 0 {
+				p = (&sn.ProgBuilder{}).Get(gen.Buckets[rng.Intn(2)], key)
+			} else {
+				p = (&sn.ProgBuilder{}).Get(gen.Buckets[0], key).Scan(gen.Buckets[1], []byte("a"), []byte("g"), -1)
+			}
+			k := sn.K(rng.Intn(4))
+			res, err := a.PreExec([]*protos.InvokeRequest{sn.VerifReq(sn.VerifContract, p.String())}, k.Address, []string{k.Address})
+			if err != nil {
+				continue
+			}
+			x, err := sn.BuildTx(sn.TxSpec{Initiator: k.Address, Signers: []*sn.Key{k}, Nonce: fmt.Sprintf("ww%d-%d", idx, i), Timestamp: int64(9000 + i),
+				InExt: res.Inputs, OutExt: res.Outputs, Requests: res.Requests})
+			if err == nil {
+				preload = append(preload, x)
+			}
+		}
+		a.Drop()
+		// b1: transfers only (so that the reads stay current), b2 confirms the preloaded transactions
+		o2 := t.Opts
+		t.Opts.KV = false
+		_, err = t.AddBlock(rng, base, 1+rng.Intn(2), nil)
+		t.Opts = o2
+		if err != nil {
+			problem("generator|fresh-replay-failed", "%v", err)
+			return
+		}
+		playBlock = len(t.Blocks) - 1
+		if _, err := t.AddBlock(rng, playBlock, 1, preload); err != nil {
+			problem("generator|fresh-replay-failed", "%v", err)
+			return
+		}
+		playBlock2 = len(t.Blocks) - 1
+	}
 	s, err := hist.NewSUT(t)
 	if err != nil {
 		problem("harness|setup", "%v", err)
@@ -131,8 +179,20 @@ func oneRound(rng *rand.Rand, pattern string, idx int) (rep roundReport) {
 		problem("harness|setup", "walk to base failed: %s", op.Result)
 		return
 	}
+	if playBlock2 > 0 {
+		// the transactions are pending on this node before the blocks that confirm them arrive
+		for _, x := range preload {
+			if err := s.N.State.DoTx(sn.CloneTx(x)); err != nil {
+				problem("harness|setup", "preload not admitted: %v", err)
+				return
+			}
+		}
+	}
 	if playBlock > 0 {
 		s.Confirm(playBlock)
+	}
+	if playBlock2 > 0 {
+		s.Confirm(playBlock2)
 	}
 	// ---- build the requests on the quiescent state ----
 	var reqs []*request
@@ -175,6 +235,10 @@ func oneRound(rng *rand.Rand, pattern string, idx int) (rep roundReport) {
 		}
 		fam("double-spend", 1)
 		reqs = append(reqs, &request{Kind: "balance", Addr: addr, Label: "balance"})
+	case "walk-walk":
+		fam("double-spend", 1)
+		reqs = append(reqs, &request{Kind: "play", Block: playBlock, Block2: playBlock2, Label: pattern, ViaWalk: true})
+		reqs = append(reqs, &request{Kind: "balance", Addr: sn.K(0).Address, Label: "balance"})
 	case "play", "walk":
 		// submit (some of) the block's own transactions and conflicting ones while it is played
 		for _, x := range t.Blocks[playBlock].Block.Transactions {
@@ -264,7 +328,9 @@ func oneRound(rng *rand.Rand, pattern string, idx int) (rep roundReport) {
 				}
 			case "play":
 				var err error
-				if rq.ViaWalk {
+				if rq.ViaWalk && rq.Block2 > 0 {
+					err = s.N.WalkBackToBack(t.Blocks[rq.Block].ID, t.Blocks[rq.Block2].ID)
+				} else if rq.ViaWalk {
 					// Walk rolls the pool back, applies the block and re-admits the pool in a goroutine of
 					// its own, which then runs next to the client submissions; Node.Walk returns when
 					// that recovery has finished
@@ -372,7 +438,7 @@ func oneRound(rng *rand.Rand, pattern string, idx int) (rep roundReport) {
 		}
 	}
 	// (c) a sequential order must explain the DoTx results (porcupine)
-	if pattern != "play" && pattern != "walk" {
+	if pattern != "play" && pattern != "walk" && pattern != "walk-walk" {
 		rep.Porcupine = checkLinearizable(reqs, baseModel, height, problem)
 	}
 	// (d) quiescent-state auditors
